@@ -3,12 +3,12 @@ package sim
 import "fmt"
 
 func init() {
-	generators["C01"] = func(p *Plan, r *RNG) { genMix(p, r, "C01") }
-	generators["C02"] = func(p *Plan, r *RNG) { genMix(p, r, "C02") }
+	generators["C01"] = func(p *Plan, r *RNG) { withRace(p, r, 6, func() { genMix(p, r, "C01") }) }
+	generators["C02"] = func(p *Plan, r *RNG) { withRace(p, r, 6, func() { genMix(p, r, "C02") }) }
 	generators["C04"] = func(p *Plan, r *RNG) { genMix(p, r, "C04") }
 	generators["C05"] = func(p *Plan, r *RNG) { genMix(p, r, "C05") }
 	generators["C08"] = func(p *Plan, r *RNG) { genMix(p, r, "C08") }
-	generators["C19"] = func(p *Plan, r *RNG) { genMix(p, r, "C19") }
+	generators["C19"] = func(p *Plan, r *RNG) { withRace(p, r, 6, func() { genMix(p, r, "C19") }) }
 }
 
 var chanEdge = []int{0, 1, 0x3FFF, 0x4000, 0x4001, 0x4002, 0x7FFE, 0x7FFF, 0x8000, 0xFFFF, 0x5000}
@@ -47,6 +47,15 @@ func contentKind(r *RNG, bias string) string {
 }
 
 // genMix: multi-client, multi-peer histories over the server world; `bias` shifts weights.
+// withRace gives one plan in n to the race-with-expiry family (gen_race.go).
+func withRace(p *Plan, r *RNG, n int, rest func()) {
+	if r.Chance(1, n) {
+		genRaceExpiry(p, r)
+		return
+	}
+	rest()
+}
+
 func genMix(p *Plan, r *RNG, bias string) {
 	baseSrvConfig(p, r)
 	p.Flavor = "mix"
